@@ -1,12 +1,29 @@
 (* C02 — The allocator neither loses nor duplicates buffers.
    Model: Model/FreeList.v (one shared access per step, any number of threads); proofs:
-   Proofs/FreeListProofs.v.  Status on the unchanged tree:
+   Proofs/FreeListProofs.v, FreeListSeq.v, FreeListConc.v.  Status on the unchanged tree:
      - counting clauses: PROVED for every schedule (C02_count_bound, C02_count_exact_at_rest);
      - "at quiescence the chain is whole again": the full statement C02_full is REFUTED by an ABA
        schedule of bufferList.pop (C02_refuted; the same schedule is replayed on the real code on
-       every run: corpus/freelist.json, known finding).                                         *)
+       every run: corpus/freelist.json, known finding);
+     - C02_partial_aba_free (+ C02_partial_aba_free_no_slot_lost): for every number of slots, ANY
+       number of threads, every program of alloc / free / update operations and EVERY schedule in
+       which no head-CAS of pop succeeds with a stale head version (aba_free, a decidable predicate
+       of the run): at every moment the free chain (non-empty: the last slot is never handed out)
+       together with the buffers held and those inside an unfinished pop / push is exactly the set
+       of slots, and when all threads have finished and nothing is held the free count is the
+       capacity and the walk from head visits every slot exactly once and ends at tail;
+     - C02_single_allocator: with at most one allocating thread (any number of recycling threads)
+       every execution is ABA-free, so the quiescence statement holds for EVERY schedule;
+     - C02_partial_sequential (+ C02_sequential_never_last, C02_sequential_failed_alloc): for one
+       thread running ANY sequence of alloc / free / update operations to completion: the list never
+       gives out its last slot, free count + held = capacity, a failed allocation leaves the memory
+       exactly as it found it, and when everything has been freed the walk from head visits every
+       slot exactly once and ends at tail (Proofs/FreeListSeq.v).
+   Not covered: programs containing FreeChain (recycleBuffers; excluded by progs_nochain).  The
+   hypothesis aba_free cannot be dropped (C02_refuted; C02_witness_is_aba).
+   nodupb / finished / chain_whole are defined in Proofs/FreeListSeq.v.                             *)
 From Coq Require Import List ZArith Lia Bool Arith.
-From Shm Require Import Gen.Consts Model.FreeList Proofs.FreeListProofs.
+From Shm Require Import Gen.Consts Model.FreeList Proofs.FreeListProofs Proofs.FreeListSeq Proofs.FreeListConc.
 Import ListNotations.
 Open Scope Z_scope.
 
@@ -30,14 +47,6 @@ Proof. exact count_exact_at_rest. Qed.
 Print Assumptions C02_count_exact_at_rest.
 
 (* ---- the full quiescence statement and its refutation ---- *)
-Definition finished (p : tlocal) : bool :=
-  match pc p, normalize (held p) (todo p) with Idle, [] => true | _, _ => false end.
-Fixpoint nodupb (l : list Z) : bool :=
-  match l with [] => true | x :: r => negb (existsb (Z.eqb x) r) && nodupb r end.
-Definition chain_whole (m : mem) : bool :=
-  let w := walk m (m_head m) (S (Z.to_nat (m_n m))) in
-  (Z.of_nat (length w) =? m_n m) && nodupb w && forallb (is_slot m) w && (last w (-1) =? m_tail m).
-
 Definition C02_full : Prop := forall n cpb base len progs sched,
   0 < n -> 0 < cpb ->
   let s := run sched (init n cpb base len progs) in
@@ -60,6 +69,77 @@ Proof.
   vm_compute in H. destruct (H eq_refl eq_refl) as [H1 H2]; discriminate.
 Qed.
 Print Assumptions C02_refuted.
+
+(* ---- every ABA-free execution: any number of threads, every schedule ---- *)
+Theorem C02_partial_aba_free : forall n cpb, 1 <= n -> 0 <= cpb -> forall base len progs sched,
+  progs_nochain progs -> aba_free sched (ginit (init n cpb base len progs)) = true ->
+  let s := run sched (init n cpb base len progs) in
+  forallb finished (thr s) = true -> all_held s = [] ->
+  m_size (mm s) = n /\ chain_whole (mm s) = true.
+Proof. exact aba_free_quiescent_whole. Qed.
+Print Assumptions C02_partial_aba_free.
+
+Theorem C02_partial_aba_free_no_slot_lost : forall n cpb, 1 <= n -> 0 <= cpb -> forall base len progs sched,
+  progs_nochain progs -> aba_free sched (ginit (init n cpb base len progs)) = true ->
+  let s := run sched (init n cpb base len progs) in
+  exists C, C <> [] /\ m_head (mm s) = hd 0 C /\ m_tail (mm s) = last C 0 /\
+            Permutation.Permutation (C ++ all_owned (thr s)) (L0 n cpb).
+Proof. exact aba_free_no_slot_lost. Qed.
+Print Assumptions C02_partial_aba_free_no_slot_lost.
+
+(* the free count never over-reports: it is the chain length minus the reservations of poppers that have
+   not yet taken (or given back) a slot and minus the pushes that have linked but not yet counted *)
+Theorem C02_partial_aba_free_size : forall n cpb base len progs sched,
+  1 <= n -> 0 <= cpb -> progs_nochain progs ->
+  aba_free sched (ginit (init n cpb base len progs)) = true ->
+  let s := run sched (init n cpb base len progs) in
+  exists C, C <> [] /\ m_head (mm s) = hd 0 C /\ m_tail (mm s) = last C 0 /\
+            m_size (mm s) = Z.of_nat (length C) - debts (thr s) /\ 0 <= debts (thr s).
+Proof. exact aba_free_size_accounting. Qed.
+Print Assumptions C02_partial_aba_free_size.
+
+Theorem C02_single_allocator : forall n cpb base len progs i0 sched,
+  1 <= n -> 0 <= cpb -> progs_nochain progs -> single_allocator i0 progs ->
+  let s := run sched (init n cpb base len progs) in
+  forallb finished (thr s) = true -> all_held s = [] ->
+  m_size (mm s) = n /\ chain_whole (mm s) = true.
+Proof. exact single_allocator_quiescent_whole. Qed.
+Print Assumptions C02_single_allocator.
+
+Example C02_witness_is_aba : aba_free aba_sched (ginit (init 5 16 44 228 aba_progs)) = false.
+Proof. vm_compute. reflexivity. Qed.
+
+(* non-vacuity: an ABA-free concurrent run (two failed CASes, interleaved pushes) that ends whole *)
+Example C02_aba_free_example :
+  let progs := [[Alloc; FreeOldest]; [Alloc; FreeOldest]; [Alloc; FreeOldest]] in
+  let sched := rep 0 4 ++ rep 1 4 ++ rep 2 13 ++ rep 1 30 ++ rep 0 30 ++ rep 2 3 ++ rep 1 4 ++ rep 2 20 ++ rep 1 20 ++ rep 0 20 in
+  aba_free sched (ginit (init 4 16 44 188 progs)) = true /\
+  (let s := run sched (init 4 16 44 188 progs) in
+   forallb finished (thr s) = true /\ all_held s = [] /\ m_size (mm s) = 4 /\ chain_whole (mm s) = true).
+Proof. vm_compute. repeat split. Qed.
+
+(* ---- one thread, any operation sequence (no recycle-chain) ---- *)
+Theorem C02_partial_sequential : forall n cpb base len ops k,
+  1 <= n -> 0 <= cpb -> forallb op_nochain ops = true ->
+  let s := run (repeat O k) (init n cpb base len [ops]) in
+  forallb finished (thr s) = true -> all_held s = [] ->
+  m_size (mm s) = n /\ chain_whole (mm s) = true.
+Proof. exact seq_quiescent_whole. Qed.
+Print Assumptions C02_partial_sequential.
+
+Theorem C02_sequential_never_last : forall n cpb base len ops k,
+  1 <= n -> 0 <= cpb -> forallb op_nochain ops = true ->
+  let s := run (repeat O k) (init n cpb base len [ops]) in
+  forallb finished (thr s) = true ->
+  1 <= m_size (mm s) /\ m_size (mm s) + Z.of_nat (length (all_held s)) = n.
+Proof. exact seq_never_last. Qed.
+Print Assumptions C02_sequential_never_last.
+
+Theorem C02_sequential_failed_alloc : forall m p L H r rs,
+  Rep m L H -> idle_n p Alloc r H rs -> (length L <= 1)%nat ->
+  exists p', iter 3 (m, p) = (m, p') /\ idle_with p' r H (rs ++ [RAlloc None]).
+Proof. exact seq_failed_alloc_restores. Qed.
+Print Assumptions C02_sequential_failed_alloc.
 
 (* non-vacuity of the counting theorems: a run with a failed allocation (the last slot is never
    handed out) and a recycle, ending at rest with size + held = capacity *)
